@@ -25,6 +25,18 @@ def plan(tier, seed, kf_ids):
     for c in wide:
         jobs.append(acc.acc1("c14", "log2", a, "I32F32", c, 8, 8, 0, True, 40, timeout=1500, tag="to_i32f32_c%d" % c))
     jobs.append(acc.acc1("c14", "ln", a, "I32F32", 3 * one, 8, 8, 23, True, 40, timeout=1500, tag="to_i32f32_c%d" % (3 * one)))
+    # single operands on other type pairs (constants folded by the front end: witnesses, not quantified obligations)
+    for (fun, sa, da, x, rel) in (("log2", "I9F23", "I32F32", 3.0, 0), ("log2", "I9F23", "I32F32", 1.01, 0), ("log2", "I9F23", "I32F32", 255.99, 0),
+                                  ("log2", "I9F23", "I32F32", 0.3, 0), ("ln", "I9F23", "I32F32", 1.01, 23), ("ln", "I9F23", "I32F32", 100.0, 23),
+                                  ("log2", "I32F32", "I32F32", 3.33333, 0), ("log2", "I32F32", "I32F32", 1e-5, 0), ("log2", "I16F48", "I16F48", 3.0, 0),
+                                  ("log2", "I32F32", "I64F64", 3.0, 0), ("log2", "I64F64", "I64F64", 10.0, 0), ("ln", "I32F32", "I64F64", 0.11111, 23)):
+        fsrc = T.TYPES[sa][2]
+        jobs.append(acc.acc1("c14", fun, sa, da, int(x * (1 << fsrc)), 0, 8, rel, True, 140, timeout=600,
+                             tag="w_%s_%s_c%d" % (sa.lower(), da.lower(), int(x * (1 << fsrc)))))
+        jobs[-1].prio = 1
+    for j in jobs:
+        if "_to_i32f32_" in j.name:
+            j.prio = 9   # 4-5 min each: decided last, when the run budget allows
     return {
         "feature": "c14",
         "jobs": jobs,
